@@ -81,6 +81,15 @@ P8 ==
        /\ tgt = IF both THEN Cfg(Named(b1, TgtNames), NoFn, NoFn, AddrVal, SvcVal) @@ [v2 |-> Cfg(Named(b2, TgtNames), NoFn, NoFn, av2, sv2)]
                 ELSE Cfg(Named(b1, TgtNames), NoFn, NoFn, AddrVal, SvcVal)
 
+(* P9: rules that differ in ONE attribute only (to / from zone, log-start, log-end, log-setting, rule-type, *)
+(* application, an element the tool does not know, action): every attribute takes part in the comparison  *)
+VBase == Rule("", "allow", {"a1"}, {"a3"}, {"s80"}, "")
+VBodies == {[VBase EXCEPT !.extra = o] : o \in {"", "x", "z3", "f3", "le", "ls", "lset", "rt", "app"}} \cup {[VBase EXCEPT !.action = "deny"]}
+P9 ==
+  \E a, b \in InjSeqs(VBodies, 2) :
+    /\ dev = Cfg(Named(a, DevNames), NoFn, NoFn, AddrVal, SvcVal)
+    /\ tgt = Cfg(Named(b, TgtNames), NoFn, NoFn, AddrVal, SvcVal)
+
 (* P7: the device holds a second vsys that Netspoc does not target (C07) *)
 P7 ==
   \E a, b \in InjSeqs(Bodies, 2) :
@@ -121,7 +130,23 @@ M2 ==
                          c6 |-> Cfg(<<>>, NoFn, NoFn, AddrValM, SvcVal), craw |-> Cfg(pre \o app, NoFn, NoFn, AddrValM, SvcVal),
                          merged |-> Cfg(pre \o v4 \o app, NoFn, NoFn, AddrValM, SvcVal)]]
 
-Init == CASE Fam = "P8" -> P8 [] Fam = "P4" -> P4 [] Fam = "M2" -> M2 [] Fam = "M1" -> M1 [] Fam = "P7" -> P7 [] Fam = "P1" -> P1 [] Fam = "P2" -> P2 [] Fam = "P3" -> P3
+(* M3: the merge with TWO vsys: the raw file has rules for vsys1 (prepended / <APPEND/>) and for vsys2 (prepended); *)
+(* every vsys is merged with the raw rules of that vsys only                                                       *)
+PreNoE == PrePool \ {Rule("rawE", "allow", {"any"}, {"any"}, {"sgR"}, "")}
+Pre2Pool == {Rule("rawB2", "deny", {"a9"}, {"any"}, {"any"}, "")}
+M3 ==
+  \E v4a \in InjSeqs(V4Pool, 2), v4b \in InjSeqs(V4Pool, 1), prea \in SeqsUpTo(PreNoE, 1), appa \in SeqsUpTo(AppPool, 1),
+     preb \in SeqsUpTo(Pre2Pool, 1) :
+    /\ v4a # <<>> /\ v4b # <<>> /\ (prea # <<>> \/ appa # <<>> \/ preb # <<>>)
+    /\ dev = Cfg(<<>>, NoFn, NoFn, AddrValM, SvcVal) @@ [v2 |-> Cfg(<<>>, NoFn, NoFn, AddrValM, SvcVal)]
+    /\ tgt = Cfg(v4a, NoFn, NoFn, AddrValM, SvcVal) @@ [v2 |-> Cfg(v4b, NoFn, NoFn, AddrValM, SvcVal)] @@
+             [parts |-> [v4 |-> v4a, v6 |-> <<>>, pre |-> prea, app |-> appa,
+                         c6 |-> Cfg(<<>>, NoFn, NoFn, AddrValM, SvcVal),
+                         craw |-> Cfg(prea \o appa, NoFn, NoFn, AddrValM, SvcVal) @@ [v2 |-> Cfg(preb, NoFn, NoFn, AddrValM, SvcVal)],
+                         merged |-> Cfg(prea \o v4a \o appa, NoFn, NoFn, AddrValM, SvcVal) @@
+                                    [v2 |-> Cfg(preb \o v4b, NoFn, NoFn, AddrValM, SvcVal)]]]
+
+Init == CASE Fam = "M3" -> M3 [] Fam = "P9" -> P9 [] Fam = "P8" -> P8 [] Fam = "P4" -> P4 [] Fam = "M2" -> M2 [] Fam = "M1" -> M1 [] Fam = "P7" -> P7 [] Fam = "P1" -> P1 [] Fam = "P2" -> P2 [] Fam = "P3" -> P3
 Next == UNCHANGED <<dev, tgt>>
 HasTie == \E g, h \in DOMAIN dev.groups : g # h /\ dev.groups[g] = dev.groups[h]
 Out == PrintT(<<"VOUT", ToJson([fam |-> Fam, dev |-> dev, tgt |-> tgt, tie |-> HasTie])>>)
